@@ -31,6 +31,14 @@ def pipeline(rep, prog, rule="PIPELINE"):
                    "a range error arises exactly from a checked epoch-day/year addition")
     f = prog.jiff("civil::date::Date::checked_add_span")
     r = Terms(f).returns()
+    # a fast path (or the tail) may have been extracted into a private helper of `impl Date` that returns the same
+    # Result<Date, Error>: look through one level of such helpers
+    from ..term import inline_helpers
+    helper_pred = lambda g_: g_.path.startswith("civil::date::Date::") and g_.get("vis") != "pub" and "Date" in str(g_.get("ret", "")) \
+        and g_.path.rsplit("::", 1)[-1] not in ("yesterday", "tomorrow", "from_unix_epoch_day", "constrain_ranged", "to_unix_epoch_day")
+    helpers = {g_.key: g_ for _bi, t_ in mir.iter_calls(f) for g_ in [prog.fns.get("jiff::" + t_.get("path", ""))] if g_ is not None and helper_pred(g_)}
+    if helpers:
+        r = inline_helpers(r, prog, depth=1, pred=helper_pred)
     mao = C("month_add_overflowing", ("field", SELF, "month"), C("Span::get_months_ranged", SPAN))
     year = TRY(C("try_checked_add", TRY(C("try_checked_add", ("field", SELF, "year"), V("y1"), ("field", mao, "1"))), V("y2"),
                  C("Span::get_years_ranged", SPAN)))
@@ -72,20 +80,31 @@ def pipeline(rep, prog, rule="PIPELINE"):
     else:
         rep.violation(rule, "Date::checked_add_span", "not the documented composition: %s; recognised %s" % ("; ".join(bad) or "-", seen), f.loc())
     # the fast paths must be guarded: yesterday under days == -1, tomorrow under days == 1
-    T = Terms(f)
-    cfg = mir.CFG(f)
-    for bi, t in mir.iter_calls(f):
-        nm = t.get("path", "").split("::")[-1]
-        if nm in ("yesterday", "tomorrow") and t.get("path", "").startswith("civil::date::Date::"):
-            want = -1 if nm == "yesterday" else 1
-            g = [strip_not(c, tr) for (c, tr, sb) in guards(f, cfg, T, bi)]
-            ok = any(tr is True and c[0] == "call" and c[1].endswith("::eq") and
-                     any(is_call(x, "Span::get_days_ranged") for x in walk(c[2][0])) and
-                     any(x == ("const", want) for x in walk(c[2][1])) for (c, tr) in g)
-            if ok:
-                rep.ok(rule, "fast path " + nm, how="guarded by days == %d" % want)
-            else:
-                rep.violation(rule, "fast path " + nm, "%s() is not guarded by span days == %d" % (nm, want), f.loc())
+    for host in [f] + list(helpers.values()):
+        T = Terms(host)
+        cfg = mir.CFG(host)
+        # in a helper the day count arrives as a parameter: the one that receives Span::get_days_ranged(span) at the call site
+        day_params = set()
+        if host is not f:
+            Tf = Terms(f)
+            for bi, t in mir.iter_calls(f):
+                if "jiff::" + t.get("path", "") == host.key:
+                    for i in range(len(t.get("args", []))):
+                        if any(is_call(x, "Span::get_days_ranged") for x in walk(Tf.at_call(bi, t, i))):
+                            day_params.add(i + 1)
+        is_days = lambda x: is_call(x, "Span::get_days_ranged") or (isinstance(x, tuple) and x and x[0] == "param" and x[1] in day_params)
+        for bi, t in mir.iter_calls(host):
+            nm = t.get("path", "").split("::")[-1]
+            if nm in ("yesterday", "tomorrow") and t.get("path", "").startswith("civil::date::Date::"):
+                want = -1 if nm == "yesterday" else 1
+                g = [strip_not(c, tr) for (c, tr, sb) in guards(host, cfg, T, bi)]
+                ok = any(tr is True and c[0] == "call" and c[1].endswith("::eq") and
+                         any(is_days(x) for x in walk(c[2][0])) and
+                         any(x == ("const", want) for x in walk(c[2][1])) for (c, tr) in g)
+                if ok:
+                    rep.ok(rule, "fast path " + nm, how="guarded by days == %d" % want)
+                else:
+                    rep.violation(rule, "fast path " + nm, "%s() is not guarded by span days == %d" % (nm, want), host.loc())
 
 
 def saturating(rep, prog, rule="SATURATING-TABLE"):
